@@ -33,6 +33,8 @@ ASSUMPTIONS = [
     "every other route is compared with it, so a defect shared by all routes (the common tree-statement parser) is invisible here (it is C02's subject)",
     "the text given as data= is the text a text-mode open() of the scratch file returns (files are written with newline='' and "
     "contain no line break inside a comment or quoted token, so universal-newline translation cannot change a token)",
+    "per-tree weights, sum of weights, weighted split counts and split frequencies held by a TreeArray are compared with values computed by the "
+    "harness from the weights of the trees TreeList.get delivers for the same text (weight None = 1.0; frequencies only when the weights do not all vanish)",
     "TreeArray content is compared with a TreeArray filled by add_trees() from the reference trees (add_tree is not a read route); "
     "split bitmasks are translated to label sets through the position of the taxon in its freshly created namespace",
     "offset semantics are those of the docstrings: Tree.get(collection_offset=i, tree_offset=j) is tree j of collection i; "
@@ -141,6 +143,42 @@ def cases_labels(tier):
     return out
 
 
+ZERO_OPTS = [
+    {"store_tree_weights": True},
+    {},                                                       # control: weight comments are not read
+    {"store_tree_weights": True, "rooting": "force-rooted", "__ns": "plain"},
+]
+
+
+def cases_zero_weights(tier):
+    """weight comments whose value is zero ([&W 0], [&W 0.0], [&W 0/5]) on the first, a middle, the last
+    or every tree; uniform rooting tokens so that the tree-array route accepts the documents"""
+    q = tier == "quick"
+    out = []
+    coms = ("none",) if q else ("none", "both")
+    for n in (1, 2, 3):
+        for pat in D.ZERO_PATTERNS:
+            for zrot in (0, 1, 2):
+                for rooting in ("none", "R"):
+                    for com in coms:
+                        for o in ZERO_OPTS:
+                            out.append({"kind": "trees", "schema": "newick", "opts": o,
+                                        "p": dict(n_trees=n, rooting=rooting, weights=pat, zrot=zrot, com=com, nl="\n", lens="int", ilab=True, semi="ok")})
+    lay = [list(x) for x in (D.LAYOUTS_Q if q else D.layouts(3, 3))]
+    for layout in lay:
+        for taxa in ("none", "one"):
+            for tr in ("none", "perm"):
+                for pat in D.ZERO_PATTERNS:
+                    for zrot in (0, 1, 2):
+                        for rooting in ("none", "R"):
+                            for com in coms:
+                                for o in (ZERO_OPTS[:2] if q else ZERO_OPTS):
+                                    out.append({"kind": "trees", "schema": "nexus", "opts": o,
+                                                "p": dict(layout=layout, taxa=taxa, translate=tr, rooting=rooting, weights=pat, zrot=zrot, com=com,
+                                                          nl="\n", chars="none", lens="int", ilab=True)})
+    return out
+
+
 def bounds(tier):
     q = tier == "quick"
     return {
@@ -164,6 +202,9 @@ def bounds(tier):
                              "positions_first": [0, 3] if q else [0, 1, 2, 3],
                              "namespaces": ["own", "plain", "pre-populated p,q,r", "pre-populated p,3,q", "case-sensitive", "case-sensitive pre-populated"],
                              "schemas": "newick (2 statements; thorough also 3), nexus without TRANSLATE (TAXA none/one, layouts (2),(1,1)), nexml"},
+        "zero_weight_layer": {"tokens": D.ZERO_WEIGHTS, "placement": list(D.ZERO_PATTERNS), "token_rotations": 3, "rooting": ["none", "R"],
+                              "newick_statements": [1, 2, 3], "nexus": "layouts x TAXA none/one x TRANSLATE none/perm",
+                              "options": "store_tree_weights True, False (control), True + force-rooted + explicit namespace"},
         "layers": list(active_layers()),
     }
 
@@ -334,6 +375,7 @@ LAYERS = {
     "nexml": (cases_nexml, 40),
     "chars": (cases_chars, 120),
     "labels": (cases_labels, 60),
+    "zero-weights": (cases_zero_weights, 40),
 }
 _case_cache = {}
 
@@ -349,7 +391,7 @@ def active_layers():
     """development aid: VERIF_C13_LAYERS=a,b restricts a run to some layers (recorded in the
     evidence through bounds()); registered commands never set it"""
     v = os.environ.get("VERIF_C13_LAYERS")
-    names = ("nexus-core", "nexus-deco", "newick", "structure", "nexml", "chars", "labels")
+    names = ("nexus-core", "nexus-deco", "newick", "structure", "nexml", "chars", "labels", "zero-weights")
     if v:
         return tuple(x for x in names if x in v.split(","))
     return names
@@ -913,6 +955,10 @@ def _ds_read(ds, env, kind):
     return ds
 
 
+def _feq(a, b, tol=1e-9):
+    return abs(a - b) <= tol * max(1.0, abs(a), abs(b))
+
+
 def ta_data(ta):
     """(is_rooted_trees, per tree (splits as label sets with lengths, leafset as label set, weight), set of namespace labels):
     every bitmask is decoded against the array's own namespace, so a leaf attached to another
@@ -957,6 +1003,7 @@ def run_tree_array(env, R, ctx, blocks, sl):
         else:
             tl = TL.get(**env.src("data"), **env.K(**extra))
         ta = TA(taxon_namespace=tl.taxon_namespace)
+        ta._c13_ref_weights = [t.weight for t in tl]
         ta.add_trees(tl)
         return ta
 
@@ -968,6 +1015,7 @@ def run_tree_array(env, R, ctx, blocks, sl):
             kw_["taxon_namespace"] = dendropy.TaxonNamespace()
         trees = list(T.yield_from_files(files, **kw_))
         ta = TA(taxon_namespace=trees[0].taxon_namespace)
+        ta._c13_ref_weights = [t.weight for t in trees]
         ta.add_trees(trees)
         return ta
 
@@ -1022,6 +1070,52 @@ def run_tree_array(env, R, ctx, blocks, sl):
             i = [x != y for x, y in zip(a[1], b[1])].index(True)
             f = "weights" if a[1][i][2] != b[1][i][2] else ("leafset" if a[1][i][1] != b[1][i][1] else "splits-or-lengths")
             tv(f, "tree %d stored as %r, add_trees of the reference tree gives %r" % (i, a[1][i], b[1][i]))
+        # --- weights: independent expectation from the weights of the trees TreeList.get delivers
+        # (TreeArray docstring: a tree's weight is used unless use_tree_weights is False; no weight = 1.0)
+        ref_w = getattr(exp[1], "_c13_ref_weights", None)
+        if ref_w is None or len(a[1]) != len(ref_w):
+            return
+        want_w = [float(w) if w is not None else 1.0 for w in ref_w]
+        got_w = [float(w) for w in got[1]._tree_weights]
+        zt = "|zero-weight" if any(w == 0 for w in want_w) else ""
+        ctx.count("tree_array_weight_vectors_compared")
+        if zt:
+            ctx.count("tree_array_weight_vectors_with_a_zero_weight")
+        bad = [i for i, (x, y) in enumerate(zip(got_w, want_w)) if not _feq(x, y)]
+        if bad:
+            i = bad[0]
+            tv("tree-weights" + ("|zero-weight" if want_w[i] == 0 else ""),
+               "array holds weight %r for tree %d, the tree delivered by the list route has weight %r (array weights %s, tree weights %s)" % (
+                   got_w[i], i, ref_w[i], got_w, ref_w))
+        sd = got[1]._split_distribution
+        if not _feq(float(sd.sum_of_tree_weights), sum(want_w)):
+            tv("sum-of-tree-weights" + zt, "split distribution of the array has sum_of_tree_weights %r, the trees' weights add up to %r" % (sd.sum_of_tree_weights, sum(want_w)))
+        labs = [x._label for x in got[1].taxon_namespace._taxa]
+
+        def lset(mask):
+            return tuple(sorted(str(labs[j]) for j in range(len(labs)) if mask & (1 << j)))
+        want_counts = {}
+        for i, splits in enumerate(got[1]._tree_split_bitmasks):
+            for sp in splits:
+                want_counts[sp] = want_counts.get(sp, 0.0) + want_w[i]
+        got_counts = dict(sd.split_counts)
+        wrong = [sp for sp in sorted(set(want_counts) | set(got_counts)) if not _feq(float(got_counts.get(sp, 0.0)), want_counts.get(sp, 0.0))]
+        if wrong:
+            sp = wrong[0]
+            tv("weighted-split-counts" + zt, "split %s has weighted count %r in the array, the weights of the trees that carry it add up to %r" % (
+                lset(sp), got_counts.get(sp), want_counts.get(sp)))
+        total = sum(want_w)
+        if total > 0:
+            fr = attempt(lambda: dict(sd.split_frequencies))
+            if fr[0] != "ok":
+                tv("split-frequencies" + zt, "split_frequencies raises %s (%s)" % (fr[1], fr[3]))
+            else:
+                wrongf = [sp for sp in sorted(want_counts) if not _feq(float(fr[1].get(sp, 0.0)), want_counts[sp] / total)]
+                if wrongf:
+                    sp = wrongf[0]
+                    tv("split-frequencies" + zt, "split %s has frequency %r, definition gives %r" % (lset(sp), fr[1].get(sp), want_counts[sp] / total))
+        else:
+            ctx.count("tree_array_all_weights_zero_frequencies_not_demanded")
 
     def reader(kind="data", **extra):
         def fn():
